@@ -393,11 +393,13 @@ def rule_alias(run):
         if isinstance(anc, ast.If) and "delayed_init" in P.T(anc.test):
             guard = anc
             break
-    gt = src(guard.test) if guard else ""
+    gt = P.T(guard.test) if guard else ""
     ok = guard is not None and "not result.delayed_init" in gt and "isinstance(result.new_obj, Signal)" in gt and "ContextType.SEQUENTIAL" in gt
     run.ob(ok, "convert_intrinsic[_IntrinsicDeclaration]", file=prep.rel, line=sa[0].lineno, detail="alias-guard",
            expected="not delayed_init and Signal and SEQUENTIAL", found=gt[:100])
-    ok = [src(a) for a in sa[0].args[:2]] == ["result.new_obj", "signal_alias"]
+    # out.SignalAlias(<declared object>, <fresh alias built for it>, ..): the alias is a local constructed in this branch
+    ok = len(sa[0].args) >= 2 and P.T(sa[0].args[0]) == "result.new_obj" and isinstance(sa[0].args[1], ast.Name) and \
+        any(isinstance(a, ast.Assign) and dotted(a.targets[0]) == sa[0].args[1].id for a in ast.walk(guard or ci.node))
     run.ob(ok, "convert_intrinsic[_IntrinsicDeclaration]", file=prep.rel, line=sa[0].lineno, detail="alias-args", expected="out.SignalAlias(result.new_obj, signal_alias, [])", found=src(sa[0])[:70])
     run.end()
 
@@ -436,10 +438,9 @@ def rule_index_capture(run):
     br = ot.find_branch(ci.node, ot.isinstance_test("result", "intr_op._IntrinsicElemAccess"))
     if br is None:
         raise AnalysisError("anchor vanished: _IntrinsicElemAccess branch")
-    t = P.T(br.body[0]) if br.body else ""
-    ok = "out.Value(result.obj, [out.Assign(result.index_temp, result.index, AssignMode.AUTO, [])])" in t.replace("\n", "").replace("  ", "")
+    rv = dotted(br.test.args[0])  # the dispatch variable, whatever it is called
     calls = ot.ctor_calls_in(br.body, "out.Assign")
-    ok = len(calls) == 1 and [src(a) for a in calls[0].args[:2]] == ["result.index_temp", "result.index"]
+    ok = len(calls) == 1 and [src(a) for a in calls[0].args[:2]] == [f"{rv}.index_temp", f"{rv}.index"]
     run.ob(ok, "convert_intrinsic[_IntrinsicElemAccess]", file=prep.rel, line=br.lineno, detail="capture-assignment",
            expected="out.Assign(result.index_temp, result.index, AUTO) bound to the access", found=src(calls[0])[:80] if calls else "missing")
     run.end()
